@@ -263,7 +263,11 @@ class Gen:
     # ---- expressions
     def str_lit(self) -> str:
         s = self.ch(self.cfg.string_lits)
-        q = self.ch(["'", '"'])
+        qs = [q for q in ("'", '"') if q not in s]
+        if not qs:
+            s = s.replace('"', "")
+            qs = ['"']
+        q = self.ch(qs)
         return f"{q}{s}{q}"
 
     def literal(self, kind: str = "any") -> str:
